@@ -862,6 +862,14 @@ func deadlineRules(c *Ctx, prefix string) {
 				continue
 			}
 			rv := pt.value(e)
+			// a named result left to a bare return: what this path assigned last (or the zero value)
+			if raw := ret.Results[len(ret.Results)-1]; raw != nil {
+				if u, isU := raw.(*ssa.UnOp); isU && u.Op == token.MUL {
+					if pv := pt.valueAt(raw, len(pt.Instrs)-1); pv != raw {
+						rv = pv
+					}
+				}
+			}
 			isNil := isNilConst(rv)
 			exceeded, notExc := false, false
 			for _, ft := range pt.Conds {
